@@ -297,7 +297,24 @@ def group_relation(suite, family, what, compare_err_pos):
 
 
 def rel_C05(suite):
-    return group_relation(suite, 'memo', 'memo variants disagree', False)
+    res = group_relation(suite, 'memo', 'memo variants disagree', False)
+    # "every parse call starts from an empty cache": re-executions of the memo family after other inputs (history lines of the
+    # harness: every input parsed again, shuffled, after all the others) must reproduce the first result
+    n = 0
+    for l in suite.get('hist', []):
+        p = l.split('\t')
+        if p[0] == '#HD':
+            c = suite['case_by_id'].get(p[1])
+            if c and 'memo' in c['tags']:
+                idx = int(p[2])
+                rule, text = c['inputs'][idx]
+                res['prop'].append(dict(kind='pegdiff', what='a memoized parser returned a different result when the same input was parsed again after other inputs (%s)' % p[3],
+                                        case=p[1], tags=c['tags'], grammar=c['text'], sexp=c['sexp'], uctx=c['uctx'], rule=rule, input=text,
+                                        input_hex=text.encode().hex(), model=suite['model'].get((p[1], idx)), impl=suite['impl'].get((p[1], idx)), rerun=p[4]))
+        elif p[0] == '#H':
+            n += int(p[2])
+    res['distribution']['sequential re-executions after other inputs (whole suite, incl. the memo family)'] = n
+    return res
 
 
 def check_chains(text):
